@@ -4,7 +4,7 @@
    does now, so the theorems below fail to type-check when the write-back regresses or the two PRODUCE
    flags share a bit again. *)
 From Coq Require Import List NArith Bool.
-From RB Require Import Gen.Flags Model.Buffer Model.Flags Proofs.FlagsP.
+From RB Require Import Base.Result Gen.Flags Model.Buffer Model.Flags Model.Font Model.Skip Model.Gsub Proofs.FlagsP Proofs.GsubConcatP.
 Import ListNotations.
 Local Open Scope N_scope.
 
@@ -86,6 +86,46 @@ Print Assumptions C04_frame.
 Theorem C04_old_writeback_refuted : exists grp, ~ uniform (propagate_group false false false grp).
 Proof. exact propagate_not_uniform_without_writeback. Qed.
 Print Assumptions C04_old_writeback_refuted.
+
+(* ---- second sentence, lookup level: a contextual rule that does not match flags what it inspected ----
+   Model/Gsub.v is the GSUB interpreter the C06 correspondence runs against the implementation (flags included).
+   A plain context rule (formats 1-3; formats 1/2 since /repo a48a496) whose input fails at `en` leaves
+   UNSAFE_TO_CONCAT on every glyph of info[idx..min(en,len)). *)
+Theorem C04_context_mismatch_flags_inspected : forall f e props rec preds recs c c' en,
+  out_mode (buf c) = true -> produce_concat (buf c) = true ->
+  match_input f e props (buf c) preds = Ok (MIfail (Some en)) ->
+  apply_context f e props rec true preds recs c = Ok (false, c') ->
+  forall k g, (k < Nat.min en (blen (buf c)) - dead (buf c))%nat ->
+              nth_error (rest (buf c')) k = Some g -> has_concat g = true.
+Proof. exact context_mismatch_flags_inspected. Qed.
+Print Assumptions C04_context_mismatch_flags_inspected.
+
+(* a chain context rule whose INPUT fails at `en` does the same (since /repo cce4fb5; HarfBuzz flags nothing there) *)
+Theorem C04_chain_input_mismatch_flags_inspected : forall f e props rec back inp ahead recs c c' en,
+  out_mode (buf c) = true -> produce_concat (buf c) = true ->
+  match_input f e props (buf c) inp = Ok (MIfail (Some en)) ->
+  apply_chain_context f e props rec back inp ahead recs c = Ok (false, c') ->
+  forall k g, (k < Nat.min en (blen (buf c)) - dead (buf c))%nat ->
+              nth_error (rest (buf c')) k = Some g -> has_concat g = true.
+Proof. exact chain_input_mismatch_flags_inspected. Qed.
+Print Assumptions C04_chain_input_mismatch_flags_inspected.
+
+(* UNSAFE_TO_CONCAT appears only when requested: without the PRODUCE flag a failed rule changes nothing *)
+Theorem C04_context_mismatch_silent_when_not_requested : forall f e props rec preds recs c c' en,
+  produce_concat (buf c) = false ->
+  match_input f e props (buf c) preds = Ok (MIfail en) ->
+  apply_context f e props rec true preds recs c = Ok (false, c') -> c' = c.
+Proof. exact context_mismatch_silent_when_not_requested. Qed.
+Print Assumptions C04_context_mismatch_silent_when_not_requested.
+
+(* the formats 1/2 rule sets of the model do pass `true` (what a48a496 changed): a subtable whose only rule fails *)
+Example C04_context1_calls_with_concat_on_fail :
+  forall f e props n rec cov rs c x k,
+    cur (buf c) = Ok x -> coverage_index cov (gid x) = Some k ->
+    subtable_apply f e props n rec (SContext1 cov rs) c
+    = first_apply (fun r => apply_context f e props rec true (preds_glyph (sr_input r)) (sr_lookups r))
+                  (match nth_error rs (N.to_nat k) with Some l => l | None => [] end) c.
+Proof. intros. cbn [subtable_apply]. rewrite H. cbn [bind]. rewrite H0. reflexivity. Qed.
 
 (* non-vacuity: two clusters, flags on one glyph of each, PRODUCE_UNSAFE_TO_CONCAT requested *)
 Example C04_example :
